@@ -33,7 +33,12 @@ def cell_equal(base, spec_cell, real_cell, is_enum):
     s = text(spec_cell)
     if base in INT_BASES:
         try:
-            return int(s) == int(real_cell) and float(real_cell) == int(real_cell)
+            r = real_cell
+            if isinstance(r, bytes):
+                r = r.decode('ascii')
+            if isinstance(r, (float, np.floating)) and r != int(r):
+                return False          # a fractional value in an integer column
+            return int(s) == int(r)   # exact: 64-bit values are not passed through a double
         except (ValueError, OverflowError):
             return False
     if base in FLT_BASES:
